@@ -39,6 +39,12 @@ def check_cache(
     # nodes sharing one definition but wired differently never share entries.
     func_inputs = node.map_inputs_to_params(inputs)
     identity = f"{node.definition_hash}:{tuple(node.outputs)!r}"
+    if isinstance(node, (RouteNode, IfElseNode)):
+        # A gate's entry also holds its routing decision, which is derived from
+        # the gate's own targets: gates sharing one routing function but routing
+        # elsewhere must not restore each other's decisions.
+        routing = (tuple(node.targets), getattr(node, "fallback", None), getattr(node, "multi_target", False))
+        identity += f":{routing!r}"
     cache_key = compute_cache_key(identity, func_inputs)
     if not cache_key:
         return "", None
